@@ -79,7 +79,7 @@ def run(ctx, pid=None):
         if r.get("failed"):
             common.report_violation(ctx, "side engine %s failed: %s" % (name, r.get("log", "")[-400:]), {"engine": name}, no_input=True)
             continue
-        for v in r["stats"].get("violations", []):
+        for v in (r["stats"].get("violations") or []):
             if v.startswith(pid + " ") or name != "dst":
                 common.report_violation(ctx, v, {"engine": name, "what": v})
         if r.get("diffs"):
